@@ -35,7 +35,14 @@ def leaf_pool(draw, profile="small", allow_const=False, max_bool=5, max_int=3, m
             leaf = {"k": "leaf", "id": bool_ids[i], "b": [c, c]}
         pool.append(leaf)
     for i in range(ni):
-        if profile == "large" and draw(st.integers(0, 2)) > 0:
+        if profile == "huge" and draw(st.integers(0, 3)) > 0:
+            # beyond the 16-bit default: single bounds fit 32 bits, sums of two or three do not
+            b = list(draw(st.sampled_from([(0, 2_000_000_000), (-2_000_000_000, 2_000_000_000), (-1_500_000_000, 1_200_000_000),
+                                           (1_000_000_000, 2_000_000_000), (-2_000_000_000, -1), (0, 2 ** 31 - 1), (-2 ** 31, 0),
+                                           (1_200_000_000, 1_200_000_000)])))
+            if b[0] == b[1] and not allow_const:
+                b = [0, 2_000_000_000]
+        elif profile == "large" and draw(st.integers(0, 2)) > 0:
             kind = draw(st.integers(0, 3))
             if kind == 0:
                 b = [-32768, draw(st.integers(-32768, 32767))]
@@ -73,11 +80,16 @@ class _Ctx:
 
     def new_id(self):
         self.counter += 1
+        if self.draw(st.integers(0, 11)) == 0:
+            return "VARIANT%d" % self.counter       # an explicit id may well start like a generated one
         return "N%d" % self.counter
 
 
 def _value(ctx, n_children, for_atmost=False):
     d = ctx.draw
+    if ctx.profile == "huge" and d(st.integers(0, 1)) == 0:
+        return d(st.sampled_from([1, 2_500_000_000, -2_500_000_000, 3_000_000_000, 2 ** 31, -(2 ** 31), 2 ** 31 - 1, 100_000_000,
+                                  -1000, 3_500_000_000, 1_200_000_000, 2_400_000_000]))
     if ctx.profile == "large" and d(st.integers(0, 2)) == 0:
         return d(st.one_of(st.integers(-40000, 40000), st.sampled_from([-32768, -32767, 32767, 32768, 65534, -65536])))
     return d(st.integers(-4, max(5, n_children + 1)))
@@ -127,6 +139,8 @@ def _node(ctx, depth, negating=False):
     node["id"] = ctx.new_id() if explicit else None
     if explicit and d(st.integers(0, 7)) == 0:
         node["idvar"] = True
+    if kind in ("AtLeast", "AtMost") and d(st.integers(0, 5)) == 0:
+        node["seq"] = d(st.sampled_from(["tuple", "iter", "gen"]))      # children handed over as another kind of iterable
     if kind == "AtLeast" and ctx.positive_only:
         s = d(st.sampled_from([1, None]))
         node["v"] = d(st.integers(1 if s is None else -1, len(children) + 1))
